@@ -14,6 +14,7 @@ import (
 	"net/netip"
 	"os"
 	"sync"
+	"sync/atomic"
 	"time"
 
 	"github.com/DataDog/datadog-traceroute/packets"
@@ -61,11 +62,12 @@ type Event struct {
 
 // Fault injects one failure.
 type Fault struct {
-	Kind   string `json:"kind"`   // sink | source | sinkfactory | sourcefactory
-	Handle int    `json:"handle"` // creation index among its kind, -1 = any
-	Op     string `json:"op"`     // WriteTo | Read | SetReadDeadline | SetPacketFilter | Close
-	K      int    `json:"k"`      // 1-based call count (per handle and op)
-	Class  string `json:"class"`  // fatal | deadline | zero
+	Kind   string `json:"kind"`           // sink | source | sinkfactory | sourcefactory
+	Handle int    `json:"handle"`         // creation index among its kind, -1 = any
+	Op     string `json:"op"`             // WriteTo | Read | SetReadDeadline | SetPacketFilter | Close
+	K      int    `json:"k"`              // 1-based call count (per handle and op)
+	Class  string `json:"class"`          // fatal | deadline | zero
+	Late   bool   `json:"late,omitempty"` // source Read only: the failure is returned when the call ends, not when it begins
 }
 
 // InjectedErr is the unique sentinel returned by a fired fatal fault.
@@ -132,6 +134,8 @@ type Wire struct {
 	nextSeq      int
 	nextTag      int
 	Faults       []Fault
+	prog         atomic.Int64   // bumped by every wire event (wedge monitor)
+	lagging      atomic.Int32   // writes currently sleeping their lag
 	PortProblems []string       // source ports that no socket of the process held while probes were sent from them
 	Fired        []*InjectedErr // sentinels of fired fatal faults, in firing order
 	FiredOther   int            // fired non-fatal faults
@@ -157,7 +161,43 @@ type Wire struct {
 }
 
 func NewWire(world World) *Wire {
-	return &Wire{epoch: time.Now(), world: world}
+	w := &Wire{epoch: time.Now(), world: world}
+	activeWire.Store(w)
+	return w
+}
+
+// ---- wedge monitor ----
+// A write that takes virtual time (WriteLag) sleeps on the bubble's fake clock, which only moves when every
+// goroutine of the bubble is durably blocked. A goroutine waiting for a sync.Mutex is not: if the code under
+// test holds one of its locks across the socket write and another of its goroutines wants that lock, the
+// clock can never move again and the case would only end at the test binary's timeout. The monitor lives
+// outside every bubble (it is started from init), sees through atomics that a write has been "in progress"
+// for 15 s of REAL time without a single wire event, and reports the case it knows to be in flight.
+var activeWire atomic.Pointer[Wire]
+
+const wedgeAfter = 15 * time.Second
+
+func init() {
+	go func() {
+		var last int64 = -1
+		var lastWire *Wire
+		var since time.Time
+		for {
+			time.Sleep(time.Second)
+			w := activeWire.Load()
+			if w == nil || w.lagging.Load() == 0 {
+				lastWire, last = nil, -1
+				continue
+			}
+			if p := w.prog.Load(); w != lastWire || p != last {
+				lastWire, last, since = w, p, time.Now()
+				continue
+			}
+			if time.Since(since) >= wedgeAfter {
+				reportWedge(fmt.Sprintf("a probe write has been in progress for %v of real time without any other activity on the wire: the virtual clock cannot advance, i.e. a goroutine of the run is waiting for a lock that is held across the socket write", wedgeAfter))
+			}
+		}
+	}()
 }
 
 func (w *Wire) since() time.Duration { return time.Since(w.epoch) }
@@ -194,6 +234,7 @@ func (w *Wire) Hooks() *packets.VerifHooks {
 }
 
 func (w *Wire) log(e Event) {
+	w.prog.Add(1)
 	e.At = w.since()
 	if w.Returned {
 		w.LateOps = append(w.LateOps, fmt.Sprintf("%s#%d.%s after return", e.Kind, e.Handle, e.Op))
@@ -374,7 +415,10 @@ func (s *SimSink) WriteTo(buf []byte, dst netip.AddrPort) error {
 		// the write call itself takes (virtual) time: the reply may be fully handled by the receiver before
 		// WriteTo returns, and whoever owns buf must not touch it until then
 		w.mu.Unlock()
+		w.lagging.Add(1)
 		time.Sleep(w.WriteLag)
+		w.lagging.Add(-1)
+		w.prog.Add(1)
 		w.mu.Lock()
 		if string(buf) != string(raw) {
 			w.BufMutated = append(w.BufMutated, fmt.Sprintf("sink#%d: the buffer passed to WriteTo changed while the write was in progress (entry % x, exit % x)", s.idx, raw[:min(len(raw), 48)], buf[:min(len(buf), 48)]))
@@ -528,6 +572,17 @@ func (s *SimSource) SetPacketFilter(spec packets.PacketFilterSpec) error {
 func (s *SimSource) Read(buf []byte) (int, error) {
 	w := s.w
 	first := true
+	var late *Fault
+	endLate := func(what string) (int, error) {
+		err := w.fire(late)
+		ev := Event{Kind: "source", Handle: s.idx, Op: "Read", Note: "fault:" + late.Class + "(at the end of the call: " + what + ")"}
+		if err != nil {
+			ev.Err = err.Error()
+		}
+		w.log(ev)
+		w.mu.Unlock()
+		return 0, err
+	}
 	for {
 		w.mu.Lock()
 		if w.expired() {
@@ -542,7 +597,10 @@ func (s *SimSource) Read(buf []byte) (int, error) {
 				w.mu.Unlock()
 				return 0, os.ErrClosed
 			}
-			if f := w.fault("source", s.idx, "Read", s.calls["Read"]); f != nil {
+			if f := w.fault("source", s.idx, "Read", s.calls["Read"]); f != nil && f.Late {
+				// the failure shows when the call ends (after it has waited for a packet or its deadline), not when it begins
+				late = f
+			} else if f != nil {
 				err := w.fire(f)
 				ev := Event{Kind: "source", Handle: s.idx, Op: "Read", Note: "fault:" + f.Class}
 				if err != nil {
@@ -565,6 +623,9 @@ func (s *SimSource) Read(buf []byte) (int, error) {
 		}
 		now := time.Now()
 		if !s.deadline.IsZero() && !now.Before(s.deadline) {
+			if late != nil {
+				return endLate("deadline")
+			}
 			w.log(Event{Kind: "source", Handle: s.idx, Op: "Read", Err: "deadline"})
 			w.mu.Unlock()
 			return 0, os.ErrDeadlineExceeded
@@ -578,6 +639,10 @@ func (s *SimSource) Read(buf []byte) (int, error) {
 			if !s.passes(p.data) {
 				w.Filtered++
 				continue
+			}
+			if late != nil {
+				heap.Push(&s.q, p)
+				return endLate("a packet was due")
 			}
 			n := copy(buf, p.data)
 			t := p.tag
